@@ -27,6 +27,7 @@ func supply(c *Chain, ctx sdk.Context) math.Int { return c.App.BankKeeper.GetSup
 // C03Monitor: shadow ledger of the total supply (DESIGN.md §4 C03). Every observation point compares the
 // bank's supply with the previous value plus the delta the statement allows for what just happened.
 type C03Monitor struct {
+	claimedDeposits map[uint64]bool // deposit ids an accepted claim has named
 	BaseMonitor
 	st          *Stats
 	prev        math.Int
@@ -191,6 +192,16 @@ func (m *C03Monitor) expectedTxDelta(c *Chain, ctx sdk.Context, tx sdk.Tx) (lo, 
 				if err != nil || agg == nil {
 					continue
 				}
+				// "claimed bridge deposits (plus the reported amount)": a deposit id adds its amount to the supply once,
+				// however often and with whatever index it is named again (own record of the ids that were claimed)
+				if m.claimedDeposits == nil {
+					m.claimedDeposits = map[uint64]bool{}
+				}
+				if m.claimedDeposits[id] {
+					m.st.Count("c03.claim-of-an-already-claimed-deposit.evals")
+					continue
+				}
+				m.claimedDeposits[id] = true
 				if amt, _, _, ok := DecodeDepositAmount(agg.AggregateValue); ok {
 					a := math.NewIntFromBigInt(new(big.Int).Quo(amt, big.NewInt(1_000_000_000_000)))
 					lo, hi = lo.Add(a), hi.Add(a)
